@@ -397,3 +397,9 @@ V("c01-impulse-applied-twice", "C01", "violation", "C01.R8", edits=[(CLF, "     
 V("c01-removal-kinds-swapped", "C01", "violation", "C01.R8", edits=[("data/events/agent_removal.py", "        if self.agent_type == self.AgentType.TARGET.value:\n            scope_instance.removeTarget(self.agent_id, self.tasking_engine_id)", "        if self.agent_type == self.AgentType.SENSOR.value:\n            scope_instance.removeTarget(self.agent_id, self.tasking_engine_id)")])
 V("c01-added-target-no-estimate", "C01", "violation", "C01.R8", edits=[(SC, "        self._estimate_agents[target_spec.id] = estimate_agent\n", "")])
 V("c01-ntw-impulse-not-rotated", "C01", "violation", "C01.R8", edits=[(SIF, "        return ntw2eci(state, self.thrust)", "        return self.thrust")])
+
+# ------------------------------------------------------------------------------------ C08 (R5)
+PI_ = "parallel/__init__.py"
+V("c08-result-to-first-registration", "C08", "violation", "C08.R5", edits=[(PI_, "            self._result_reg_mapping[finished_jobs[0]].processResults(result)", "            next(iter(self._result_reg_mapping.values())).processResults(result)")])
+V("c08-wait-two-process-one", "C08", "violation", "C08.R5", edits=[(PI_, "ray.wait(self._unfinished_jobs)", "ray.wait(self._unfinished_jobs, num_returns=min(2, len(self._unfinished_jobs)))")])
+V("c08-mapping-keyed-by-submission", "C08", "violation", "C08.R5", edits=[(PI_, "        self._result_reg_mapping[remote_ref] = registration", "        self._result_reg_mapping[remote_ref] = self._result_reg_mapping.get(remote_ref, registration)\n        self._last = registration")])
